@@ -76,6 +76,8 @@ errmsg("C01", "planner-projection", "Failed to plan expressions for projection",
 errmsg("C01", "nested-cte-not-visible", "Missing table or view for reference 'S'", "a CTE is not visible from a WITH clause nested inside a later sibling CTE / derived table", "WITH a AS (..), b AS (WITH c AS (..) SELECT .. FROM a) SELECT ..", ["C09", "C02", "C03"])
 errmsg("C01", "lateral-ambiguous-column", "Ambiguous column name 'S'", "an unambiguous unqualified column is reported ambiguous when a LATERAL subquery over the same base table is in scope", "WITH c AS (SELECT z + k FROM t0 t1, LATERAL (SELECT 0 AS z FROM t1 s WHERE s.k <> t1.k) l WHERE ..) ..", ["C09", "C02", "C03"])
 errmsg("C01", "subqueries-in-projection-clone-arrays", "Cannot clone arrays with different data types", "execution fails ('Cannot clone arrays with different data types') when the select list holds two subquery expressions (scalar + IN) of different types over a join", "SELECT (SELECT s.k FROM t0 s WHERE a0 = vc3) AS z9, (t4.a IN (SELECT a0 FROM t0)) AS z13 FROM (VALUES ('x', 9)) v1(vc2, vc3) INNER JOIN t1 t4 ON true", ["C09", "C02", "C03"])
+errmsg("C02", "planner-filter-expressions", "Failed to plan expressions for filter", "physical planning fails ('Failed to plan expressions for filter') with the optimizer on for SEMI JOINs between derived tables with constant-false filters (plans fine with enable_optimizer=false)", "SELECT .. FROM (..) d12 SEMI JOIN (SELECT .. WHERE ('b' IS NOT DISTINCT FROM 'x%y')) d ON ..", ["C01", "C03", "C06", "C09"])
+panic("C02", "column-expr-index-out-of-bounds", "index out of bounds: the len is N but the index is N", "glaredb_core/src/expr/physical/column_expr.rs", "a physical column expression indexes past the input batch (planner produced a wrong column index) for queries with a correlated scalar subquery in WHERE plus a correlated ALL subquery in the select list", "SELECT (k <> ALL (SELECT t1.k FROM t2 s7)) FROM t0 t1 WHERE (SELECT min(s2.a + t1.k) FROM t1 s2) NOT IN (3, 5)", ["C01", "C03", "C09", "C15", "C16"])
 panic("C02", "join-reorder-hyper-edge-assertion", "assertion failed: self.hyper_edges.all_non_empty_edges_removed()", "glaredb_core/src/optimizer/join_reorder/graph.rs", "join reordering trips an internal assertion (debug builds) on joins between CTE references with filters", "WITH c AS (..) SELECT .. FROM c x INNER JOIN c y ON (x.a = y.a) WHERE <const false> HAVING ..", ["C01", "C15", "C16", "C03", "C09"])
 panic("C02", "filter-pushdown-table-ref-assertion", "assertion `left == right` failed\n  left: TableRef { table_idx: N }\n right: TableRef { table_idx: N }", "glaredb_core/src/optimizer/filter_pushdown/mod.rs", "filter pushdown trips an internal assert_eq on table refs for UNION branches over derived tables", "SELECT .. FROM (.. GROUP BY CUBE ..) d WHERE d.c = d.c UNION SELECT .. FROM (..) d2, (..) d3, t WHERE ..", ["C01", "C15", "C16", "C03", "C09"])
 
@@ -103,6 +105,11 @@ case("C02", "optimizer-cte-self-join-left", "same defect through a LEFT JOIN bet
      T2, "WITH c AS MATERIALIZED (SELECT k, j FROM t2) SELECT * FROM c a LEFT JOIN c b ON (a.k = b.j AND a.j = b.k)",
      {"outcome": "rows", "rows": [[1, 2, None, None], [2, 3, None, None], [3, 1, None, None]]},
      {"outcome": "rows", "rows": [[1, 2, 1, 2], [2, 3, 2, 3], [3, 1, 3, 1]]}, ["C01", "C09"])
+
+case("C02", "optimizer-semi-join-reorder-loses-rows", "with the optimizer on, a WHERE <x> op ANY/IN (subquery) over a FROM list of three or more tables loses the multiplicity of the other tables (the semi join is reordered below the cross product and duplicates collapse)",
+     ["CREATE TEMP TABLE t0 (k INT)", "INSERT INTO t0 VALUES (-3)", "CREATE TEMP TABLE t1 (k INT)", "INSERT INTO t1 VALUES (7)", "CREATE TEMP TABLE t2 (k INT)", "INSERT INTO t2 VALUES (-33), (-3)"],
+     "SELECT 2.5::double AS z FROM t1, t2, t0 AS t3 WHERE (t3.k <> ANY (SELECT s4.k FROM t1 AS s4))",
+     {"outcome": "rows", "rows": [[2.5], [2.5]]}, {"outcome": "rows", "rows": [[2.5]]}, ["C01", "C06", "C09"])
 
 with open(os.path.join(V, "known_findings.jsonl"), "w") as f:
     for e in F:
